@@ -1305,6 +1305,34 @@ def case_view_formulas(ctx, rseed, count):
                        sample={"variables": n, "presented": shown[:4], "stored": len(F._clauses)})
 
 
+def case_count_sweep(ctx, counts):
+    """Formulas with every clause count in a range (a fast path of the writer or the reader may begin at any
+    unremarkable size), written by both routes and read back by the library and by the reference reader."""
+    K = cnf_classes()["CNF"] if isinstance(cnf_classes(), dict) else list(cnf_classes())[0]
+    for m in counts:
+        n = 40 + m % 17
+        clauses = [[(i % n) + 1, -(((i * 7 + 3) % n) + 1)] if i % 3 else [-((i % n) + 1)] for i in range(m)]
+        F = K()
+        F.update_variable_number(n)
+        F.add_clauses_from(clauses, check=False)
+        buf = io.StringIO()
+        F.to_file(buf, fileformat="dimacs", export_header=bool(m % 2))
+        for how, text in (("to_dimacs", F.to_dimacs()), ("to_file", buf.getvalue())):
+            ctx.count("count_sweep_exports")
+            try:
+                rn, rc = ref.read(text)
+            except Exception as e:      # noqa: BLE001 - ref.Rejected
+                ctx.violation("dimacs-writer:count-sweep:output-not-readable", "%s of a formula with %d clauses: %r" % (how, m, e))
+                continue
+            if rn != n or [list(c) for c in rc] != clauses:
+                ctx.violation("dimacs-writer:count-sweep:text-denotes-another-formula",
+                              "%s of a formula with %d variables and %d clauses: the text holds %d / %d" % (how, n, m, rn, len(rc)))
+            st, G = ctx.call(K.from_file, io.StringIO(text))
+            if st == "exc" or G.number_of_variables() != n or [list(c) for c in G] != clauses:
+                ctx.violation("dimacs-reader:count-sweep:misread", "a written text with %d clauses read back as %r" % (m, G if st == "exc" else len(G)))
+        ctx.judged(("count-sweep", m), nontrivial=m > 0, sample={"clauses": m})
+
+
 def case_export_histories(ctx, rseed, count):
     """One formula object exported several times with edits in between: every export must show the current state."""
     r = ctx.rng("c06hist", rseed)
@@ -1388,6 +1416,9 @@ def _workload(tier, seed):
         yield "export_histories", {"rseed": seed * 1000 + b, "count": 60}
     for b in range(2 if q else 30):
         yield "view_formulas", {"rseed": seed * 1000 + b, "count": 40}
+    sweep = list(range(seed % 7, 2300, 7)) if q else list(range(0, 5200))
+    for i in range(0, len(sweep), 80):
+        yield "count_sweep", {"counts": sweep[i:i + 80]}
     # writer / round trip
     for mode, batches in (("plain", 4 if q else 60), ("unusual", 12 if q else 240), ("breaks", 4 if q else 40)):
         for b in range(batches):
